@@ -214,8 +214,9 @@ func trieExplorer(depth int, alpha string, keyLen int) *tt.Explorer {
 			for _, k := range keys {
 				r = append(r, op("put", append([]int{len(path)}, bytesOf(k)...)...))
 			}
-			// observers between the puts (never two in a row, never last: the projection follows anyway)
-			if len(path) < depth && !trieIsObs(path[len(path)-1]) {
+			// observers between the first puts (never two in a row, never last: the projection follows anyway;
+			// not beyond the third position, the deep tier's tree would not be validated in time)
+			if len(path) < depth && len(path) <= 3 && !trieIsObs(path[len(path)-1]) {
 				r = append(r, op("sw", bytesOf(alpha[:1])...), op("sw", bytesOf(alpha[:1]+alpha[1:2])...), op("keys"),
 					op("get", bytesOf(alpha[:1])...), op("lp", bytesOf(alpha[:1]+alpha[1:2]+alpha[1:2])...))
 			}
